@@ -164,7 +164,7 @@ static void run_history(int model, long mp, bool nosym, const std::vector<Op>& o
 static std::string gen_ops(hc::Rng& r, int nm) {
     auto q4 = [&]() { return models::rand_quad(r, nm); };
     auto q2 = [&]() { std::string s; s += '0' + r.below(nm); s += '0' + r.below(nm); return s; };
-    auto fr = [&]() { return r.pct(35) ? std::string("") : models::rand_freqs(r, r.range(1, 4)); };
+    auto fr = [&]() { int x = r.below(100); return x < 35 ? std::string("") : x < 42 ? models::rand_grid_freqs(r, 300) : models::rand_freqs(r, r.range(1, 4)); };
     std::vector<std::string> ops;
     // mostly the documented order with repetitions, omissions and interleavings of the later stages
     if (r.pct(95)) ops.push_back("Hp");
